@@ -883,7 +883,9 @@ func (c *histCase) Shrinks() []Case {
 	}
 	return out
 }
-func (c *histCase) Key() string { return strings.Join(c.Ops, " ") + fmt.Sprintf(" (%d pkgs)", len(c.S.Pkgs)) }
+func (c *histCase) Key() string {
+	return strings.Join(c.Ops, " ") + fmt.Sprintf(" (%d pkgs)", len(c.S.Pkgs))
+}
 func (c *histCase) Classes() []string {
 	m := map[string]bool{}
 	for _, op := range c.Ops {
@@ -1012,7 +1014,7 @@ func init() {
 		},
 		{
 			Name: "alone-imports", Quick: 120, Thorough: 800, New: func() Case { return &aloneCase{} },
-			Gen: genAloneImports,
+			Gen:      genAloneImports,
 			BatchRun: aloneBatch, ShrinkBudget: 40, MaxShrinks: 4,
 			Rule: pipeRuleCommon + "as alone-together, with every generator rendering 1–3 references into a menu of 10 packages whose last path segments clash pairwise (x/codec·y/codec, a/v2·b/v2, core/v1·apps/v1, text/template·html/template, math/rand·crypto/rand): the local import names chosen for a package's file must be the same alone and together",
 		},
@@ -1072,7 +1074,7 @@ func init() {
 			Name: "history", Quick: 80, Thorough: 600, New: func() Case { return &histCase{} },
 			Gen:      func(r *Rng, i int) Case { return genHistory(r) },
 			BatchRun: histBatch, ShrinkBudget: 40, MaxShrinks: 4,
-			Rule:     "histories of 4–10 steps over 2–3 packages from {edit, add, delete a file, create / retarget a symbolic link to a source file kept outside the package directory, edit the file behind the link, delete a generated file, delete / corrupt gengo.sum, run, run with Force, run failing in p, run on entrypoint p without All} followed by three plain runs, on one persistent real module; oracle: ground truth from the harness's own content ids of the directories at load time (not from hashes): skipped ⇔ unchanged since the sum was recorded, failed runs keep the sum, three runs converge",
+			Rule: "histories of 4–10 steps over 2–3 packages from {edit, add, delete a file, create / retarget a symbolic link to a source file kept outside the package directory, edit the file behind the link, delete a generated file, delete / corrupt gengo.sum, run, run with Force, run failing in p, run on entrypoint p without All} followed by three plain runs, on one persistent real module; oracle: ground truth from the harness's own content ids of the directories at load time (not from hashes): skipped ⇔ unchanged since the sum was recorded, failed runs keep the sum, three runs converge",
 		},
 	}})
 }
